@@ -1379,29 +1379,42 @@ func (res *Result) CheckStreams() {
 	// the same for snapshots received from another replica: the image handed to
 	// RecoverFromSnapshot carries the sender's applied index A, raft accepted the
 	// snapshot as index M (all kinds, streamed snapshots of on-disk state machines included)
-	for name, installed := range res.Rec.Installed {
-		recov := res.Rec.RecoveredBy[name]
-		if len(recov) == 0 {
-			continue // accepted by raft but not (yet) applied by the state machine
-		}
-		for _, m := range installed {
-			var best uint64
-			found := false
-			for _, a := range recov {
-				if a <= m && a >= best {
-					best, found = a, true
+	// (judged from the image's side: a snapshot that raft accepted may never reach the
+	// state machine - the replica is stopped or loses power first and restarts from a
+	// later one - so an accepted index without a matching image proves nothing; but every
+	// image that WAS handed to RecoverFromSnapshot must be the state at the index of some
+	// snapshot the replica accepted or created itself)
+	for name, recov := range res.Rec.RecoveredBy {
+		var cands []uint64
+		cands = append(cands, res.Rec.Installed[name]...)
+		cands = append(cands, res.Rec.Created[name]...)
+		for _, a := range recov {
+			explained, any := false, false
+			var worst uint64
+			var worstCmd string
+			for _, m := range cands {
+				if m < a {
+					continue
 				}
-			}
-			if !found {
-				continue
-			}
-			for j := best + 1; j <= m; j++ {
-				if cmd, ok := byIndex[j]; ok {
-					res.violateLocked("installed-snapshot-content-not-at-snapshot-index",
-						"replica %s accepted a snapshot with index %d; the newest image it recovered from at or below that index has applied index %d (images %v), but entry %d (%q) is a user entry that the replica will never apply",
-						name, m, best, recov, j, cmd)
+				any = true
+				clean := true
+				for j := a + 1; j <= m; j++ {
+					if cmd, ok := byIndex[j]; ok {
+						clean = false
+						worst, worstCmd = j, cmd
+						break
+					}
+				}
+				if clean {
+					explained = true
 					break
 				}
+			}
+			if any && !explained {
+				res.violateLocked("installed-snapshot-content-not-at-snapshot-index",
+					"replica %s recovered from an image with applied index %d; every snapshot it accepted or created at or above that index (accepted %v, created %v) covers user entries the image does not contain, e.g. entry %d (%q), which the replica will never apply",
+					name, a, res.Rec.Installed[name], res.Rec.Created[name], worst, worstCmd)
+				break
 			}
 		}
 	}
